@@ -160,6 +160,7 @@ func (v *PacketDslFormattor) VisitFieldDefinitionWithAttribute(ctx *gen.FieldDef
 	var formattedDsl strings.Builder
 	if len(ctx.AllFieldAttribute()) > 0 {
 		for _, fieldAttr := range ctx.AllFieldAttribute() {
+			formattedDsl.WriteString(v.getHiddenLeft(fieldAttr.GetStart()))
 			switch {
 			case fieldAttr.CalculatedFromAttribute() != nil:
 				formattedDsl.WriteString(v.VisitCalculatedFromAttribute(fieldAttr.CalculatedFromAttribute().(*gen.CalculatedFromAttributeContext)).(string))
